@@ -132,6 +132,41 @@ Theorem C19_single_status : forall (dp : datapath) (meth : string) (b : body),
 Proof. exact c19_single_status. Qed.
 Print Assumptions C19_single_status.
 
+(* ---- histories: one handler + upf serving any sequence of requests; state = upf.sliceInfo *)
+(* what a request is answered, sends to the datapath and stores does not depend on the state it
+   finds (any previously posted slice, or none): it is serve of that request alone, so every theorem
+   above holds for every request of every history *)
+Theorem C19_history_independent : forall (st st' : state) (dp : datapath) (meth : string) (b : body),
+  fst (serve_st st dp meth b) = fst (serve_st st' dp meth b) /\
+  fst (serve_st st dp meth b) = serve dp meth b.
+Proof. exact c19_history_independent. Qed.
+Print Assumptions C19_history_independent.
+
+Theorem C19_sequence : forall (st : state) (dp : datapath) (reqs : list request),
+  fst (run st dp reqs) = map (fun q => serve dp (q_meth q) (q_body q)) reqs.
+Proof. exact run_results. Qed.
+Print Assumptions C19_sequence.
+
+(* a refused request (unreadable / malformed body, other method) at the end of any history leaves the
+   cached slice info and the meter (the writes of the last request that sent any) as they were *)
+Theorem C19_refused_keeps_meter : forall (st : state) (dp : datapath) (reqs : list request) (q : request)
+    (m : list write),
+  q_body q = Unreadable \/ q_body q = Malformed \/ (q_meth q <> "PUT"%string /\ q_meth q <> "POST"%string) ->
+  snd (run st dp (reqs ++ [q])) = snd (run st dp reqs) /\
+  meter_after m (fst (run st dp (reqs ++ [q]))) = meter_after m (fst (run st dp reqs)).
+Proof. exact c19_refused_keeps. Qed.
+Print Assumptions C19_refused_keeps_meter.
+
+(* an accepted request at the end of any history: the cache and the meter are what IT posted *)
+Theorem C19_accepted_overrides : forall (st : state) (dp : datapath) (reqs : list request) (meth : string)
+    (d : doc) (m : list write),
+  meth = "PUT"%string \/ meth = "POST"%string ->
+  snd (run st dp (reqs ++ [Req meth (Decoded d)])) = Some (slice_info_of d) /\
+  (add_slice_info dp (slice_info_of d) <> [] ->
+   meter_after m (fst (run st dp (reqs ++ [Req meth (Decoded d)]))) = add_slice_info dp (slice_info_of d)).
+Proof. exact c19_accepted_overrides. Qed.
+Print Assumptions C19_accepted_overrides.
+
 (* ---------------------------------------------------------------- non-vacuity *)
 Definition ex_doc (ul dl : N) (u : string) (ulb dlb : N) : doc :=
   Doc "slice1" ul dl u ulb dlb [("internet", "pool1")].
@@ -171,3 +206,16 @@ Example C19_error_examples :
   serve Bess "GET" (Decoded (ex_doc 1 1 "" 1 1)) = Result [405] [] None /\
   serve Bess "put" (Decoded (ex_doc 1 1 "" 1 1)) = Result [405] [] None.
 Proof. vm_compute. repeat split. Qed.
+
+(* a history: 40 Mbps, a malformed body, a GET, then the same rate spelled 40000 Kbps with new bursts:
+   the last request is programmed in full although name and converted rates equal the cached ones *)
+Example C19_history_example :
+  let d1 := Doc "s" 40 40 "Mbps" 6000 7000 [] in
+  let d2 := Doc "s" 40000 40000 "Kbps" 120000 140000 [] in
+  run None Bess [Req "PUT" (Decoded d1); Req "POST" Malformed; Req "GET" (Decoded d2); Req "PUT" (Decoded d2)] =
+  ([ Result [201] (bess_meter_spec 40000000 40000000 6000 7000) (Some (SliceInfo "s" 40000000 40000000 6000 7000 []));
+     Result [400] [] None; Result [405] [] None;
+     Result [201] (bess_meter_spec 40000000 40000000 120000 140000)
+            (Some (SliceInfo "s" 40000000 40000000 120000 140000 [])) ],
+   Some (SliceInfo "s" 40000000 40000000 120000 140000 [])).
+Proof. vm_compute. reflexivity. Qed.
